@@ -138,3 +138,49 @@ pub fn c08_via_secondary() {
     vsym::check("secure-cluster.keys-unchanged-on-every-node", same_lines(&before, &secure_cluster_dump(&cl)));
     vsym::cover("secure-cluster.on-secondary", at == 1);
 }
+
+/// keys decorated with control characters (the WebSocket / HTTP transports deliver them; the symbolic tokens elsewhere are printable
+/// ASCII): a line break, carriage return or tab before or after a $$ name must not turn into an access to the $$ key itself
+pub fn c08_control_characters() {
+    let sa = String::from("7"); let oa = String::from("oa1");
+    let mut n = mk_secret_node(&sa, &oa, "r a*", "$$na");
+    let sess = vsym::choice("session", 2);
+    vsym::tag_i("session", sess as i64);
+    let login = if sess == 0 { "use-db d tok" } else { "use-db d me mt" };
+    let (mut c, mut rx) = new_client();
+    vsym::assume(is_ok(&process_request(login, &n.dbs, &mut c)));
+    drain(&mut rx); drain(&mut n.rep_rx);
+    let names = ["$$s", "$$token", "$$user_o", "$$permission_$o"];
+    let name = names[vsym::choice("name", names.len())];
+    let deco = vsym::choice("decoration", 6);
+    vsym::tag_i("decoration", deco as i64);
+    let key = match deco { 0 => ["\n", name].concat(), 1 => [name, "\n"].concat(), 2 => ["\r", name].concat(), 3 => ["\t", name].concat(), 4 => ["\r\n", name].concat(), _ => ["\n\n", name].concat() };
+    let op = vsym::choice("op", 7);
+    vsym::tag_i("op", op as i64);
+    let v = vsym::any_token("value", 3); vsym::assume(v.len() >= 1);
+    let line = match op {
+        0 => ["set ", &key, " ", &v].concat(),
+        1 => ["set-safe ", &key, " 0 ", &v].concat(),
+        2 => ["remove ", &key].concat(),
+        3 => ["increment ", &key, " 2"].concat(),
+        4 => ["get ", &key].concat(),
+        5 => ["get-safe ", &key].concat(),
+        _ => ["watch ", &key].concat(),
+    };
+    let before = secure_dump(&n);
+    let r = process_request(&line, &n.dbs, &mut c);
+    vsym::check("control-chars.secure-keys-unchanged", same_lines(&before, &secure_dump(&n)));
+    // nothing the session receives carries a stored secret (the secret value, the other user's token)
+    let lines = drain(&mut rx);
+    let mut leaked = false;
+    for l in lines.iter() { if l.contains(" 7\n") || l.contains("oa1") || l.contains("r a*") { leaked = true; } }
+    match &r { Response::Value { key: _, value, version: _ } => { if value == "7" || value == "oa1" || value == "r a*" { leaked = true; } }, _ => {} }
+    vsym::check("control-chars.no-secret-in-replies", !leaked);
+    // and later administrator writes to the secret are not notified to it
+    let (mut ad, _x) = admin_client(&n.dbs);
+    process_request("use-db d tok", &n.dbs, &mut ad);
+    process_request("set $$s 99", &n.dbs, &mut ad);
+    let later = drain(&mut rx);
+    let mut notified = false; for l in later.iter() { if l.contains("99") { notified = true; } }
+    vsym::check("control-chars.no-notification-of-secret-writes", !notified);
+}
